@@ -178,18 +178,157 @@ Proof.
   apply (density_two_branch Hexagonal 6 12 30); [reflexivity|cbn; lra|cbn; lra|assumption].
 Qed.
 
-(* ORTHO-PLACEHOLDER *)
+(* ------------------------------------------------------------------------- *)
+(* orthorhombic: four branches                                               *)
+(* ------------------------------------------------------------------------- *)
+Lemma round_upto_val n : forall k j x, (0 <= j)%Z -> (j <= Z.of_nat n)%Z ->
+  IZR (k + j) - 1 / 2 <= x < IZR (k + j) + 1 / 2 -> @round_upto NumR n k x = (k + j)%Z.
+Proof.
+  induction n as [|n IH]; intros k j x H0 H1 Hx.
+  - cbn in H1. assert (j = 0%Z) by lia. subst. cbn. lia.
+  - cbn [round_upto]. numR. unfold Rltb. destruct (Rlt_dec x (IZR k + 1 / 2)) as [Hlt|Hge].
+    + destruct (Z.eq_dec j 0) as [->|Hj]; [lia|]. exfalso.
+      assert (IZR k + 1 <= IZR (k + j)) by (rewrite <- (plus_IZR k 1); apply IZR_le; lia). lra.
+    + destruct (Z.eq_dec j 0) as [->|Hj].
+      * exfalso. rewrite Z.add_0_r in Hx. lra.
+      * replace (k + j)%Z with ((k + 1) + (j - 1))%Z by lia. apply IH; try lia.
+        replace ((k + 1) + (j - 1))%Z with (k + j)%Z by lia. exact Hx.
+Qed.
 
-Definition good_mass (s : Lattice) : Prop := s = Triclinic \/ s = Monoclinic.
+Definition b_of (M : Z) : R := @density_const_b NumR M.
+Lemma b_of_expand M : b_of M = IZR 2 * (atan (sqrt (1 + a_of M * a_of M)) * (IZR 180 / PI)).
+Proof. reflexivity. Qed.
+
+Lemma b2_bounds : 109 <= b_of 2 /\ b_of 2 < 110.
+Proof. rewrite b_of_expand, a_of_expand. split; interval. Qed.
+
+Lemma c2_val : @density_const_c NumR 2 = 120%Z.
+Proof.
+  unfold density_const_c. change (@density_const_a NumR 2) with (a_of 2). numR.
+  apply (round_upto_val 400 0 120); [lia|cbn; lia|]. cbn [Z.add]. rewrite a_of_expand. split; interval.
+Qed.
+
+Definition g_third (k : nat) : R :=
+  (2 / 90) * ((2 + a_of 2) * sin (edge k * (PI / 180)) - 2 * (1 - cos (edge k * (PI / 180)))).
+Definition g_fourth (k : nat) : R := @branch4 NumR 2 (edge k).
+Definition g_ortho (k : nat) : R :=
+  if (k <=? 90)%nat then g_first 4 k else if (k <=? 109)%nat then g_third k else g_fourth k.
+
+Lemma density_orthorhombic k : (k <= 120)%nat -> @density_edge NumR Orthorhombic (edge k) = Ok (g_ortho k).
+Proof.
+  intros Hk. unfold density_edge. cbn [lattice_MN]. unfold g_ortho.
+  change (@density_const_b NumR 2) with (b_of 2). rewrite c2_val.
+  destruct b2_bounds as [B1 B2].
+  destruct (Nat.leb_spec k 90) as [H1|H1].
+  - pose proof (edge_bounds k 90 H1). rewrite between_true by (numR; cbn in *; lra).
+    unfold g_first, deg2rad. numR. reflexivity.
+  - pose proof (edge_gt k 90 H1) as G1. cbn in G1.
+    rewrite between_false by (numR; right; lra).
+    rewrite between_false by (numR; right; lra).
+    destruct (Nat.leb_spec k 109) as [H2|H2].
+    + pose proof (edge_bounds k 109 H2) as G2. cbn in G2.
+      rewrite between_true by (numR; lra).
+      unfold g_third, deg2rad, a_of. numR. reflexivity.
+    + pose proof (edge_gt k 109 H2) as G2. cbn in G2. pose proof (edge_bounds k 120 Hk) as G3. cbn in G3.
+      rewrite between_false by (numR; right; lra).
+      rewrite between_true by (numR; lra). reflexivity.
+Qed.
+
+Lemma theory_orthorhombic : @theory NumR Orthorhombic = Ok (map (trapz g_ortho) (seq 0 120)).
+Proof. apply (theory_form Orthorhombic). intros k Hk. now apply density_orthorhombic. Qed.
+
+(* branch 4: acos expressed through atan (CoqInterval has no acos) *)
+Ltac expand_fourth :=
+  cbv [g_fourth branch4 deg2rad rad2deg ntan];
+  change (@density_const_a NumR 2) with (a_of 2); numR; rewrite ?a_of_expand; edge_num;
+  rewrite !acos_atan by interval; unfold Rsqr.
+
+Lemma g_third_nonneg k : (90 < k <= 109)%nat -> 0 <= g_third k.
+Proof.
+  intros [H1 H2]. pose proof (edge_gt k 90 H1) as G1. pose proof (edge_bounds k 109 H2) as G2. cbn in G1, G2.
+  unfold g_third. rewrite a_of_expand. set (e := edge k) in *. interval.
+Qed.
+
+Lemma g_fourth_nonneg k : (109 < k <= 119)%nat -> 0 <= g_fourth k.
+Proof.
+  intros H.
+  assert (C: (k = 110 \/ k = 111 \/ k = 112 \/ k = 113 \/ k = 114 \/ k = 115 \/ k = 116 \/ k = 117
+             \/ k = 118 \/ k = 119)%nat) by lia.
+  repeat (destruct C as [->|C]); try subst k; expand_fourth; interval.
+Qed.
+
+(* the density vanishes at the largest angle: the last bin is bounded as a whole *)
+Lemma last_bin_nonneg : 0 <= trapz g_ortho 119.
+Proof.
+  unfold trapz. cbv [g_ortho Nat.leb]. expand_fourth. interval with (i_prec 40).
+Qed.
+
+Lemma g_ortho_nonneg k : (k <= 119)%nat -> 0 <= g_ortho k.
+Proof.
+  intros Hk. unfold g_ortho.
+  destruct (Nat.leb_spec k 90); [apply g_first_nonneg; lra|].
+  destruct (Nat.leb_spec k 109); [apply g_third_nonneg; lia|apply g_fourth_nonneg; lia].
+Qed.
+
+Lemma mass_orthorhombic : Rabs (rsum (map (trapz g_ortho) (seq 0 120)) - 1) <= 1 / 1000.
+Proof.
+  rewrite rsum_trapz. cbn [seq map rsum fold_right Nat.add].
+  cbv [g_ortho Nat.leb g_first g_third]. expand_fourth.
+  interval with (i_prec 40).
+Qed.
+
+Lemma theory_orthorhombic_nonneg : Forall (Rle 0) (map (trapz g_ortho) (seq 0 120)).
+Proof.
+  apply Forall_forall. intros x Hx. apply in_map_iff in Hx as (k & <- & Hk). apply in_seq in Hk.
+  destruct (Nat.eq_dec k 119) as [->|Hne]; [apply last_bin_nonneg|].
+  unfold trapz. pose proof (g_ortho_nonneg k ltac:(lia)). pose proof (g_ortho_nonneg (S k) ltac:(lia)). lra.
+Qed.
+
+(* rhombohedral: the density is undefined (assert False) above c = 104 degrees *)
+Lemma b3_bounds : b_of 3 < 105.
+Proof. rewrite b_of_expand, a_of_expand. interval. Qed.
+Lemma c3_val : @density_const_c NumR 3 = 104%Z.
+Proof.
+  unfold density_const_c. change (@density_const_a NumR 3) with (a_of 3). numR.
+  apply (round_upto_val 400 0 104); [lia|cbn; lia|]. cbn [Z.add]. rewrite a_of_expand. split; interval.
+Qed.
+Lemma density_rhombohedral_105 : @density_edge NumR Rhombohedral (edge 105) = Err AssertionError.
+Proof.
+  unfold density_edge. cbn [lattice_MN]. change (@density_const_b NumR 3) with (b_of 3). rewrite c3_val.
+  pose proof b3_bounds. edge_num.
+  rewrite between_false by (numR; right; lra).
+  rewrite between_false by (numR; right; lra).
+  rewrite between_false by (numR; right; lra).
+  rewrite between_false by (numR; right; lra). reflexivity.
+Qed.
+Lemma collect_err {A} (l : list (res A)) : (exists e, In (Err e) l) -> exists e, collect l = Err e.
+Proof.
+  intros (e & H). induction l as [|[a|e'] l IH]; [destruct H| |]; cbn [collect].
+  - destruct H as [H|H]; [discriminate|]. destruct (IH H) as (e2 & ->). eauto.
+  - eauto.
+Qed.
+Lemma theory_rhombohedral_error : exists e, @theory NumR Rhombohedral = Err e.
+Proof.
+  unfold theory. apply collect_err.
+  assert (X: exists e, @misorientations_random NumR (edge 104) (edge 105) Rhombohedral = Err e).
+  { unfold misorientations_random.
+    destruct (negb _); [eauto|]. destruct (@density_edge NumR Rhombohedral (edge 104)); [|eauto].
+    rewrite density_rhombohedral_105. eauto. }
+  destruct X as (e & He). exists e. apply in_map_iff. exists 104%nat. split; [exact He|].
+  apply in_seq. cbn. lia.
+Qed.
+
+Definition good_mass (s : Lattice) : Prop := s = Triclinic \/ s = Monoclinic \/ s = Orthorhombic.
 
 Theorem theory_mass_partial s : good_mass s ->
   exists th, @theory NumR s = Ok th /\ Forall (Rle 0) th /\ Rabs (rsum th - 1) <= 1 / 1000.
 Proof.
-  intros [->| ->].
+  intros [->|[->| ->]].
   - eexists. split; [apply theory_triclinic|]. split; [|apply mass_triclinic].
     apply Forall_trapz_nonneg. intros k. apply g_first_nonneg. lra.
   - eexists. split; [apply theory_monoclinic|]. split; [|apply mass_monoclinic].
     apply Forall_trapz_nonneg_upto. intros k Hk. apply g_two_nonneg; [lra|apply a2_bounds|cbn in Hk; lia].
+  - eexists. split; [apply theory_orthorhombic|]. split; [apply theory_orthorhombic_nonneg|apply mass_orthorhombic].
 Qed.
 
 Theorem mindex_in_unit_interval s (angs : list R) m : good_mass s ->
